@@ -10,7 +10,7 @@ from dataclasses import dataclass, field
 from typing import Dict, List, Optional, Set, Tuple
 
 from . import facts as F
-from .exc import resolve_exc_class
+from .exc import resolve_exc_class, resolve_exc_classes
 from .flow import Flow
 from .model import UNKNOWN, AnalysisError, FuncInfo, norm
 from .treefx import TreeFx
@@ -19,7 +19,7 @@ from .types import (DICT_METHODS, LIST_METHODS, NODE_Q, NULLABLE_TYPES, RULE_Q, 
 
 RET = "$ret"
 STORE = "$store"
-TRANSFER = {"nn", "none", "known", "rulekey", "parses", "lenge", "member", "haskey", "desc", "reg", "isstr", "falsy", "listed"}
+TRANSFER = {"clsval", "constval", "nn", "none", "known", "rulekey", "parses", "lenge", "member", "haskey", "desc", "reg", "isstr", "falsy", "listed"}
 
 # externals and builtins that accept None arguments without raising
 NONE_TOLERANT = {
@@ -29,8 +29,11 @@ NONE_TOLERANT = {
 }
 SPEC_OK_INDEX = {0, 1, 2, -1, -2}
 SPEC_OK_KEYS = {"content_rules"}
+# read from the installed rfc3986 2.0.0: Validator.validate raises its four ValidationError subclasses, and
+# _mixin.authority_info() encodes an unparsable authority (str.encode, strict) while building InvalidAuthority,
+# which raises UnicodeEncodeError for a lone surrogate before the library's own handler sees anything
 RFC_VALIDATE = ["rfc3986.exceptions.MissingComponentError", "rfc3986.exceptions.UnpermittedComponentError",
-                "rfc3986.exceptions.InvalidComponentsError", "rfc3986.exceptions.PasswordForbidden"]
+                "rfc3986.exceptions.InvalidComponentsError", "rfc3986.exceptions.PasswordForbidden", "UnicodeError"]
 
 
 @dataclass
@@ -160,6 +163,8 @@ class Engine:
 
 
 class Domain:
+    prune_dead_handlers = True
+
     def __init__(self, eng: Engine, fi: FuncInfo, cfacts: frozenset):
         self.eng = eng
         self.fi = fi
@@ -383,17 +388,25 @@ class Domain:
                 return self._gen(st, *gens)
         return st
 
-    def term(self, e):
+    def term(self, e, st=None):
         """linear term: (base, const) with base in (None, ('v', path), ('len', path))"""
+        t = self._term(e)
+        if st is not None and t is not None and t[0] is not None and t[0][0] == "v":
+            for f in st:
+                if f[0] == "islen" and f[1] == t[0][1]:
+                    return (("len", f[2]), t[1])
+        return t
+
+    def _term(self, e):
         if isinstance(e, ast.Constant) and isinstance(e.value, int) and not isinstance(e.value, bool):
             return (None, e.value)
         if isinstance(e, ast.UnaryOp) and isinstance(e.op, ast.USub):
-            t = self.term(e.operand)
+            t = self._term(e.operand)
             if t and t[0] is None:
                 return (None, -t[1])
             return None
         if isinstance(e, ast.BinOp) and isinstance(e.op, (ast.Add, ast.Sub)):
-            a, b = self.term(e.left), self.term(e.right)
+            a, b = self._term(e.left), self._term(e.right)
             if a is None or b is None:
                 return None
             sign = 1 if isinstance(e.op, ast.Add) else -1
@@ -467,7 +480,7 @@ class Domain:
             return st
         # arithmetic
         if opt in (ast.Lt, ast.LtE, ast.Gt, ast.GtE, ast.Eq, ast.NotEq):
-            a, b = self.term(left), self.term(right)
+            a, b = self.term(left, st), self.term(right, st)
             if a is None or b is None:
                 return st
             if opt in (ast.Gt, ast.GtE):
@@ -608,7 +621,7 @@ class Domain:
                 step = sc if isinstance(sc, int) else None
         else:
             return out
-        ts, te = self.term(start), self.term(stop)
+        ts, te = self.term(start, st), self.term(stop, st)
         if step == 1:
             if ts is not None:
                 if ts[0] is None:
@@ -715,17 +728,24 @@ class Domain:
             if not flow.quiet:
                 self._escape("Exception", (self.fi.qname, "raise", "re-raise"), (self.fi.qname,), st, self.fi.loc(s), "raise")
             return
-        cls = resolve_exc_class(self.eng.prog, self.fi.module, s.exc)
-        if cls is None:
+        env = {}
+        for f in st:
+            if f[0] == "clsval" and f[1] in self.fi.params:
+                env[f[1]] = ("class", f[2])
+            if f[0] == "constval" and f[1] in self.fi.params:
+                env[f[1]] = f[2]
+        classes = resolve_exc_classes(self.eng.prog, self.fi.module, s.exc, env)
+        if classes is None:
             raise AnalysisError(f"{self.fi.loc(s)}: cannot resolve the class raised by `{norm(s)}`")
-        esc = flow.raise_event([cls], s, st, "raise", "raise")
-        if not flow.quiet:
-            self.summ.ledger.append({"func": self.fi.qname, "construct": norm(s.exc)[:80], "op": "raise",
-                                     "may_raise": [self.eng.h.short(cls)], "discharge": "ESCAPES" if esc else "D-TRY",
-                                     "loc": self.fi.loc(s)})
-            for c in esc:
-                self._escape(c, (self.fi.qname, f"raise {self.eng.h.short(cls)}", "raise"), (self.fi.qname,), st, self.fi.loc(s),
-                             f"raise {self.eng.h.short(cls)}")
+        for cls in classes:
+            esc = flow.raise_event([cls], s, st, "raise", "raise")
+            if not flow.quiet:
+                self.summ.ledger.append({"func": self.fi.qname, "construct": norm(s.exc)[:80], "op": "raise",
+                                         "may_raise": [self.eng.h.short(cls)], "discharge": "ESCAPES" if esc else "D-TRY",
+                                         "loc": self.fi.loc(s)})
+                for c in esc:
+                    self._escape(c, (self.fi.qname, f"raise {self.eng.h.short(cls)}", "raise"), (self.fi.qname,), st, self.fi.loc(s),
+                                 f"raise {self.eng.h.short(cls)}")
 
     def _store(self, t, value, st, flow):
         if isinstance(t, (ast.Tuple, ast.List)):
@@ -862,6 +882,10 @@ class Domain:
                 out.append(("elemall", p))
         if isinstance(value, ast.Subscript):
             out.extend(self._subscript_value_facts(p, value, st))
+        lv = F.is_len_call(value)
+        if lv is not None and self.path(lv) is not None:
+            out.append(("islen", p, self.path(lv)))
+            out.append(("lb", p, 0))
         if isinstance(value, ast.Call):
             out.extend(self._call_value_facts(p, value, st))
         if isinstance(value, ast.Attribute):
@@ -989,7 +1013,7 @@ class Domain:
         bp = self.path(base)
         if bp is None:
             return None
-        t = self.term(idx)
+        t = self.term(idx, st)
         if t is None:
             return None
         lists = {bp} | {f[2] for f in st if f[0] == "eqlen" and f[1] == bp}
@@ -1080,7 +1104,7 @@ class Domain:
     # ------------------------------------------------------------------ calls
     def _shrink_list(self, st, lp):
         return frozenset(f for f in st if not (
-            (f[0] in ("ub", "eqlen", "member", "snap") and lp in F.paths_of(f)) or (f[0] == "lenge" and f[1] == lp)))
+            (f[0] in ("ub", "eqlen", "member", "snap", "islen") and lp in F.paths_of(f)) or (f[0] == "lenge" and f[1] == lp)))
 
     def _tree_kill(self, st, effects):
         out = set(st)
@@ -1149,6 +1173,15 @@ class Domain:
                     out.add(("haskey", STORE, p))
             if isinstance(a, (ast.Tuple, ast.List)):
                 out.add(("lenge", p, len(a.elts)))
+            if isinstance(a, (ast.Name, ast.Attribute)) and not (isinstance(a, ast.Name) and a.id in self.ft.env):
+                rc = resolve_exc_class(self.eng.prog, self.fi.module, a)
+                if rc is not None and self.eng.h.known(rc):
+                    out.add(("clsval", p, rc))
+                else:
+                    cv = self.const(a)
+                    from .model import EnumMember as _EM
+                    if isinstance(cv, (_EM, str, int)) and not isinstance(cv, bool):
+                        out.add(("constval", p, cv))
             if isinstance(a, (ast.Name, ast.Attribute)):
                 c = self.const(a)
                 if isinstance(c, (tuple, list)):
@@ -1453,7 +1486,7 @@ class Domain:
                 return st
             if bt in (T_NLIST, T_LIST) and m in ("append", "insert", "extend"):
                 if bp:
-                    st = frozenset(g for g in st if not (g[0] in ("eqlen", "snap") and bp in F.paths_of(g) and g[0] == "eqlen"))
+                    st = frozenset(g for g in st if not (g[0] in ("eqlen", "islen") and bp in F.paths_of(g)))
                 if bp and "." not in bp and m == "append" and args and isinstance(args[0], ast.Tuple):
                     new = set()
                     for i, x in enumerate(args[0].elts):
@@ -1558,7 +1591,7 @@ class Domain:
                     continue
             if f[0] in ("desc", "listed") and removed_path is not None and f[1] == removed_path:
                 continue
-            if f[0] in ("ub", "eqlen") and lp in F.paths_of(f):
+            if f[0] in ("ub", "eqlen", "islen") and lp in F.paths_of(f):
                 continue
             if f[0] == "lenge" and f[1] == lp:
                 continue
